@@ -11,7 +11,10 @@ const OrdinalsPrefix = "ord"
 
 // Inscribe adds an output to the transaction with an inscription.
 func (tx *Tx) Inscribe(ia *bscript.InscriptionArgs) error {
-	s := *ia.LockingScriptPrefix // deep copy
+	// copy the prefix: appending to the caller's slice would write into the spare capacity of its buffer
+	// (ParseInscription hands out the prefix as a slice of the whole parsed script)
+	s := make(bscript.Script, len(*ia.LockingScriptPrefix))
+	copy(s, *ia.LockingScriptPrefix)
 
 	// add Inscription data
 	// (Example: 	OP_FALSE
